@@ -272,6 +272,19 @@ Base(b) ==
                                   << Message(MessageName(DeclNames[1][4], 1),
                                              << Plain(FieldNames[1], Ref("object", PkgNames[1], <<ShadowMessage.src>>, "", "qual")) >>) >>) >>),
                             File("b", <<>>, << ObjectDecl(DeclNames[2][1], <<>>) >>) >>) >>]
+      \* two inline enums of one name in different messages (Avocado.GammaOne exists; Apple gets its own GammaOne by an append),
+      \* next to a top-level enum of that name: three distinct types
+      [] b = "inlsame" -> [pkgs |-> << Pkg(PkgNames[1], << File("a", <<>>,
+                            << ObjectDecl(DeclNames[1][1], <<>>),
+                               ObjectDecl(DeclNames[1][2], << Plain(FieldNames[1], InlineEnum(NoName, <<"FIRST", "SECOND">>)) >>),
+                               EnumDecl(Name(FieldNames[1].w, "upper"), <<"FIRST">>, FALSE, "") >>),
+                            File("b", <<>>, << ObjectDecl(DeclNames[2][1], <<>>) >>) >>) >>]
+      \* an import alias spelled like a declaration name: bar.baz.v1 imports foo.v1 as "Avocado" and refers to Avocado.Apple;
+      \* the declaration appended next is called Avocado, and may get an inline type Apple of its own
+      [] b = "aliasdecl" -> [pkgs |-> << Pkg(PkgNames[1], << TargetFile("a", 1) >>),
+                                         Pkg(PkgNames[2], << File("a", << Import(PkgNames[1], "alias", DeclNames[1][2].src, "") >>,
+                                              << ObjectDecl(DeclNames[1][1],
+                                                   << Plain(FieldNames[1], Ref("object", PkgNames[1], <<DeclNames[1][1].src>>, DeclNames[1][2].src, "qual")) >>) >>) >>) >>]
       \* file-path import (T: protobuild TestImportProtoToJ5Other, README "Packages and Imports")
       [] b = "twopkgfile" -> [pkgs |-> << Pkg(PkgNames[1], << TargetFile("a", 1) >>),
                                        Pkg(PkgNames[2], << File("a", << Import(PkgNames[1], "file", "", "a") >>,
@@ -490,9 +503,17 @@ FieldChoices(b, c, n) ==
         metaref == IF Breadth = "full" /\ c.ctx = "topicmsg"
                    THEN {[e |-> Plain(Name(<<"thing">>, "camel"), Scalar("msgmeta")), rich |-> 1, label |-> "field-of-implied-metadata-type"]}
                    ELSE {}
+        \* an inline object named like a type of the package that the file imports under an alias spelled like THIS message
+        \* (alias Avocado, message Avocado, field apple object {...}: the nested type is Avocado.Apple, the alias reference
+        \* Avocado.Apple of an existing field means foo.v1.Apple)
+        aliasnest == IF Breadth \in {"full", "lite"} /\ c.ctx = "object" /\ Len(GetNode(b, c.path).name.w) > 0
+                        /\ \E i \in Idx(fl.imports) : fl.imports[i].form = "alias" /\ fl.imports[i].alias = GetNode(b, c.path).name.src
+                     THEN {[e |-> Plain(Name(DeclNames[1][1].w, "camel"), InlineObject(NoName, <<MinField(1)>>)), rich |-> 1,
+                            label |-> "inline-named-like-aliased-type"]}
+                     ELSE {}
         \* multi-package bundles exist for the reference forms: only references (and minimal fields) are added there when Focused
         refsOnly == Focused /\ Len(b.pkgs) > 1
-    IN {[e |-> MinField(n + 1), rich |-> 0, label |-> ""]} \cup refs
+    IN {[e |-> MinField(n + 1), rich |-> 0, label |-> ""]} \cup refs \cup aliasnest
        \cup (IF refsOnly THEN {} ELSE scal \cup inl \cup names \cup selfname \cup selfdeep \cup reftype \cup metaref)
 
 \* R "Oneof": options are objects, inline or by reference
